@@ -1,4 +1,4 @@
-\* The edit machine: every table of at most three entries over nine entries
+\* The edit machine: every table of at most three entries over ten entries
 \* reachable by add / delete / update, every edge emitted, the statement's
 \* invariants checked on the table reached after every edit history.
 CONSTANTS U = "hist" MaxLen = 3 EmitFrom = 1 Shard = 0 Perms = FALSE Families = 0 Mode = "hist"
